@@ -17,6 +17,7 @@ Monitors
   nls_affine_exact        A x* + B u* + c1 == f(x*,u*,t*), C x* + D u* + c2 == g(x*,u*,t*).
   nls_second_order        affine-model error at two distances: observed order >= 1.8.
 """
+import copy
 import traceback
 
 import icontract
@@ -184,6 +185,23 @@ class FuncLTV(pp.module.LTV):
         return self._C + self._C1 * torch.sin(self.w * self._t.to(self._C.dtype))
 
 
+class FuncLTVGen(FuncLTV):
+    """The constants too are generated from the time variable by overriding the public properties c1 / c2; nothing is
+    handed to the base-class constructor for them (None)."""
+
+    def __init__(self, A0, A1, B, C0, C1, D, c1g, c2g, w):
+        super().__init__(A0, A1, B, C0, C1, D, None, None, w)
+        self._c1g, self._c2g = c1g, c2g
+
+    @property
+    def c1(self):
+        return None if self._c1g is None else self._c1g * torch.cos(self.w * self._t.to(self._c1g.dtype))
+
+    @property
+    def c2(self):
+        return None if self._c2g is None else self._c2g * (1 + torch.sin(self.w * self._t.to(self._c2g.dtype)))
+
+
 GenNLS = R.nls_subclass(pp.module.NLS)
 
 
@@ -236,15 +254,19 @@ class LinModel:
         self.tC, self.tD = g(self.sh["C"], q, n), g(self.sh["D"], q, m)
         self.tc1 = g(self.sh["c"], n) if consts in ("both", "c1") else None
         self.tc2 = g(self.sh["c"], q) if consts == "both" else None
+        self.gen_consts = False
         if family == "func":
             self.tA1, self.tC1 = tt(rng.standard_normal(self.sh["A"] + (n, n)), self.dtype), \
                 tt(rng.standard_normal(self.sh["C"] + (q, n)), self.dtype)
+            self.gen_consts = consts != "none" and bool(rng.random() < 0.5)     # c1 / c2 produced by overridden properties
 
     def build(self):
         if self.family == "LTI":
             return pp.module.LTI(self.tA, self.tB, self.tC, self.tD, self.tc1, self.tc2)
         if self.family == "stack":
             return StackLTV(self.tA, self.tB, self.tC, self.tD, self.tc1, self.tc2, self.P)
+        if self.gen_consts:
+            return FuncLTVGen(self.tA, self.tA1, self.tB, self.tC, self.tC1, self.tD, self.tc1, self.tc2, self.w)
         return FuncLTV(self.tA, self.tA1, self.tB, self.tC, self.tC1, self.tD, self.tc1, self.tc2, self.w)
 
     def mats(self, t):
@@ -264,6 +286,12 @@ class LinModel:
             v["C"] = v["C"] + f64(self.tC1) * np.sin(self.w * float(t))
             g["A"] = g["A"] + np.abs(f64(self.tA1)) * (1 + self.w * abs(float(t)))   # argument w*t carries |w t| u
             g["C"] = g["C"] + np.abs(f64(self.tC1)) * (1 + self.w * abs(float(t)))
+            if self.gen_consts:
+                amp = 1 + self.w * abs(float(t))
+                if v["c1"] is not None:
+                    v["c1"], g["c1"] = v["c1"] * np.cos(self.w * float(t)), g["c1"] * amp
+                if v["c2"] is not None:
+                    v["c2"], g["c2"] = v["c2"] * (1 + np.sin(self.w * float(t))), 2 * g["c2"] * amp
         return v, g
 
     def rand_vec(self, rng, which, mag):
@@ -398,11 +426,18 @@ def run_linear_sequence(ck, rng, model, seq_key, L):
     ck.mark(f"{fam}/{model.layout}")
     ck.mark(f"{fam}/{model.dn}")
     ck.mark(f"{fam}/consts={model.consts}")
+    if getattr(model, "gen_consts", False):
+        ck.mark("func/consts-generated-by-overridden-properties")
     prev = None
     events = ["call"] * 9 + ["reset()", "reset(int)", "reset(tensor)", "systime=int", "systime=tensor",
-                             "set_refpoint()", "set_refpoint(t)", "eval()/train()"]
+                             "set_refpoint()", "set_refpoint(t)", "eval()/train()", "deepcopy"]
     kept = []           # time tensors handed to the system stay the caller's: later calls must not move them
+    originals = []      # systems that were deep-copied: the sequence goes on with the copy, the original's clock stands still
     for step in range(L):
+        for (o_, t_) in originals:
+            ck.count("systime_automaton", f"{kind}/deepcopy/original", key=(seq_key, step, id(o_)))
+            ck.check(int(o_.systime) == t_, "systime_automaton", f"{kind}/deepcopy/original", f"{kind}.__call__",
+                     "calls_on_a_deep_copy_moved_the_clock_of_the_original", {"original_time_at_copy": t_, "now": int(o_.systime), "step": step})
         for (a_, v_, how_) in kept:
             ck.count("systime_automaton", f"{kind}/argument_independent", key=(seq_key, step, id(a_)))
             ck.check(int(a_) == v_, "systime_automaton", f"{kind}/argument_independent", f"{kind}.{how_}",
@@ -426,6 +461,14 @@ def run_linear_sequence(ck, rng, model, seq_key, L):
                 check_lin_outputs(ck, model, t0, x, u, out, regime, f"{kind}.__call__")
                 if isinstance(out, tuple) and isinstance(out[0], torch.Tensor):
                     prev = out[0]
+        elif ev == "deepcopy":
+            # object lifecycle: the copy carries the time of the original and from now on keeps its own
+            okc, s2 = ck.call("systime_automaton", regime, f"{kind}.__deepcopy__", lambda: copy.deepcopy(s))
+            if okc:
+                originals = (originals + [(s, auto.t)])[-2:]
+                s = s2
+                auto.keep()
+                after_event(ck, s, auto, kind, ev, seq_key, step)
         elif ev == "eval()/train()":
             # nn.Module mode switch: not a time event; calls made afterwards still advance time
             s.eval() if s.training else s.train()
@@ -510,9 +553,26 @@ def linearisation_monitor(ck, rng, s, S, xs, us, ts, dn, regime, layout="unbatch
         if not ck.check(isinstance(v, torch.Tensor) and tuple(v.shape) == want and v.dtype == DT[dn], "nls_jacobian", regime,
                         f"NLS.{name}", "shape_or_dtype", wit):
             continue
-        M[name] = f64(v).reshape(shapes[name])
+        M[name] = np.array(f64(v).reshape(shapes[name]), copy=True)
     base_w = {"x_star": xs.tolist(), "u_star": us.tolist(), "t_star": float(ts), "dtype": dn, "layout": layout,
               "system": S.describe()}
+    # the matrices handed out are the caller's (a continuous-time user rescales them in place): reading again gives the Jacobians again
+    if rng.random() < 0.5:
+        with torch.no_grad():
+            for name in M:
+                if isinstance(P[name], torch.Tensor) and P[name].numel():
+                    try:
+                        P[name].mul_(0.5).add_(1.0)
+                    except RuntimeError:
+                        pass             # an expanded (stride-0) tensor cannot be written through
+        P2 = read_props(ck, s, tuple(M), regime)
+        ck.mark("NLS/re-read-after-caller-edited-the-matrices")
+        for name in M:
+            if isinstance(P2[name], torch.Tensor) and tuple(P2[name].shape) == tuple(P[name].shape):
+                ck.count("nls_jacobian", f"{regime}/{name}/{dn}/re-read", key=(name, xs.tobytes(), float(ts)))
+                ck.check(bool(np.array_equal(f64(P2[name]).reshape(M[name].shape), M[name])), "nls_jacobian", f"{regime}/{name}/{dn}", f"NLS.{name}",
+                         "value_read_again_follows_what_the_caller_did_to_the_earlier_result",
+                         lambda name=name: dict(base_w, name=name, first=M[name].tolist(), again=f64(P2[name]).tolist()))
     for name in ("A", "B", "C", "D"):
         if name not in M:
             continue
@@ -603,9 +663,14 @@ def run_nls_sequence(ck, rng, S, dn, seq_key, L):
     pending = None                   # explicit reference point waiting to be read after further calls
     events = ["call"] * 6 + ["reset()", "reset(int)", "reset(tensor)", "systime=int", "systime=tensor",
                              "set_refpoint(x,u,t)", "set_refpoint(x,u,t)", "set_refpoint(x,u,t)+calls",
-                             "set_refpoint()", "set_refpoint(partial)", "eval()/train()"]
+                             "set_refpoint()", "set_refpoint(partial)", "eval()/train()", "deepcopy"]
     tag = S.kind + ("/time-dep" if S.time_dep else "")
+    originals = []
     for step in range(L):
+        for (o_, t_) in originals:
+            ck.count("systime_automaton", "NLS/deepcopy/original", key=(seq_key, step, id(o_)))
+            ck.check(int(o_.systime) == t_, "systime_automaton", "NLS/deepcopy/original", "NLS.__call__",
+                     "calls_on_a_deep_copy_moved_the_clock_of_the_original", {"original_time_at_copy": t_, "now": int(o_.systime), "step": step})
         ev = events[int(rng.integers(len(events)))] if step else "call"
         if pending is not None and pending[3] == 0:
             xs, us, ts, _, how = pending
@@ -625,6 +690,13 @@ def run_nls_sequence(ck, rng, S, dn, seq_key, L):
                 last = (x, u)
             if pending is not None:
                 pending = pending[:3] + (pending[3] - 1, pending[4])
+        elif ev == "deepcopy":
+            okc, s2 = ck.call("systime_automaton", "NLS", "NLS.__deepcopy__", lambda: copy.deepcopy(s))
+            if okc:
+                originals = (originals + [(s, auto.t)])[-2:]
+                s = s2
+                auto.keep()
+                after_event(ck, s, auto, "NLS", ev, seq_key, step)
         elif ev == "eval()/train()":
             s.eval() if s.training else s.train()
             auto.keep()
@@ -765,7 +837,8 @@ def run(ck):
            "eval()/train()"]
     for kind in ("LTI", "LTV", "NLS"):
         ck.require(*[f"event/{kind}/{e}" for e in evs])
-    ck.require("event/LTI/large-time", "event/NLS/large-time")
+    ck.require("event/LTI/large-time", "event/NLS/large-time", "func/consts-generated-by-overridden-properties",
+               "NLS/re-read-after-caller-edited-the-matrices", "event/LTI/deepcopy", "event/LTV/deepcopy", "event/NLS/deepcopy")
     ck.require("event/systime=tensor/kept", "event/LTI/set_refpoint(t)", "event/LTV/set_refpoint(t)", "event/NLS/set_refpoint(x,u,t)",
                "event/NLS/set_refpoint(partial)", "event/NLS/read-properties")
     ck.require("NLS/explicit-refpoint", "NLS/default-refpoint", "NLS/partial-refpoint", "NLS/read-after-further-calls",
